@@ -3,6 +3,7 @@
 PM = "frequenz.sdk.microgrid._power_managing"
 FS = "frequenz.sdk.timeseries.formula_engine._formula_steps"
 RS = "frequenz.sdk.timeseries._resampling"
+BPM = "frequenz.sdk.timeseries.battery_pool._metric_calculator"
 CSM = "frequenz.sdk.microgrid._power_distributing._component_status"
 BT = f"{CSM}._battery_status_tracker:BatteryStatusTracker"
 
@@ -155,5 +156,23 @@ PROPS = {
         assumptions=[EXTRACTION, "datetime/timedelta as integer microseconds; timedelta*float rounds half-even",
                      "bisect / islice / deque(maxlen) by their documented contracts (trusted_base)",
                      "the user's resampling function is a scripted callable that records its argument"],
+    ),
+    "C18": dict(
+        modules=["bp_metrics"],
+        contracts=[f"{BPM}:CapacityCalculator.calculate", f"{BPM}:SoCCalculator.calculate"],
+        lemmas=["scaled_soc_is_monotone_and_bounded", "usable_capacity_scales_linearly",
+                "pool_soc_is_monotone_in_every_battery_soc"],
+        bounded=[],
+        level="proof",
+        explanation="Loop invariants over any set of batteries (iterated in arbitrary order): the running sums equal the ghost "
+                    "recurrences written from the documented formulas (usable capacity = capacity*(hi-lo)/100; SoC rescaled to "
+                    "the limits and clamped); result None iff no working battery has all required metrics; SoC within [0, 100] "
+                    "and equal to used/total (0 for a zero-capacity pool).",
+        assumptions=[REALS, EXTRACTION, "capacity >= 0 and lower limit <= upper limit per battery (the property's quantifier)",
+                     "scale invariance of the pool SoC: proved per battery (weight scales linearly, rescaled SoC unchanged); "
+                     "the step to the quotient of the two sums is distributivity and is not machine-checked (the inductive "
+                     "version went `unknown`: nonlinear arithmetic under quantifiers)",
+                     "not under contract: LatestMetricsFetcher.fetch_next (NaN metrics dropped) and "
+                     "SendOnUpdate.update_working_batteries (cache eviction)"],
     ),
 }
